@@ -16,6 +16,7 @@ import PqlModel.Props.C07OperatorIRJoin
 import PqlModel.Props.C07OperatorIRParse
 import PqlModel.Props.C07ExprIR
 import PqlModel.Props.C07ParserIR
+import PqlModel.Props.C07OperatorIRTerm
 #print axioms Pql.C07.C07_precedence_table
 #print axioms Pql.C07.C07_spec_prec_eq_model
 #print axioms Pql.C07.C07_join_kinds
@@ -147,3 +148,11 @@ import PqlModel.Props.C07ParserIR
 #print axioms Pql.ParserIR.C07_callee_ident_is_unit
 #print axioms Pql.ParserIR.C07_callee_expr_is_unit_entry
 #print axioms Pql.ParserIR.C07_callee_expr_is_unit_needs_fuel
+#print axioms Pql.OpIR.sortTerm_ir
+#print axioms Pql.OpIR.rowCount_ir
+#print axioms Pql.OpIR.C07_sortTerm_ir
+#print axioms Pql.OpIR.C07_rowCount_ir
+#print axioms Pql.OpIR.C07_calleeIR_eq
+#print axioms Pql.OpIR.C07_sortOperator_ir_composed
+#print axioms Pql.OpIR.C07_takeOperator_ir_composed
+#print axioms Pql.OpIR.C07_topOperator_ir_composed
